@@ -59,6 +59,9 @@ func VerifC20Modify() {
 	skipHdr := []string{"", "true", "1"}[symChoose(3)]
 	csp := []string{"", "script-src 'nonce-ab'", "default-src 'self'"}[symChoose(3)]
 	body := []byte(symString("body", symParam("B")))
+	if symBool("frameset") {
+		body = []byte("<frameset></frameset>") // a page without a body element
+	}
 
 	wire := verifEncode(enc, body)
 	resp := &http.Response{
@@ -112,6 +115,10 @@ func VerifC20Modify() {
 	dec, derr := verifDecode(enc, after)
 	symAssert(derr == nil, "the body decodes with the declared encoding")
 	if derr != nil {
+		return
+	}
+	if string(body) == "<frameset></frameset>" {
+		symAssert(string(dec) == string(body), "a document without a body element is delivered unchanged and still decodes with the declared encoding")
 		return
 	}
 	verifCheckInserted(string(body), string(dec), parseNonce(csp))
